@@ -69,13 +69,26 @@ func (c *Ctx) contractFor(pkgPath, name string) *FuncContract {
 	return c.contracts[pkgPath+"."+name]
 }
 
+// splitExternKey splits "path/to/pkg.(*T).M" into package path and relative name.
+func splitExternKey(key string) (string, string) {
+	slash := strings.LastIndex(key, "/")
+	dot := strings.Index(key[slash+1:], ".")
+	if dot < 0 {
+		return key, ""
+	}
+	return key[:slash+1+dot], key[slash+1+dot+1:]
+}
+
 // funcFor finds the SSA function a contract is attached to.
 func (c *Ctx) funcFor(fc *FuncContract) *ssa.Function {
-	sp := c.spkg[fc.PkgPath]
+	pkgPath, key := fc.PkgPath, fc.Key
+	if fc.Kind == "extern" {
+		pkgPath, key = splitExternKey(fc.Key)
+	}
+	sp := c.spkg[pkgPath]
 	if sp == nil {
 		return nil
 	}
-	key := fc.Key
 	if strings.HasPrefix(key, "(") {
 		// (*T).M or (T).M
 		end := strings.Index(key, ")")
@@ -220,6 +233,51 @@ func Load(repo string, patterns []string) (*Ctx, error) {
 				}
 				ctx.contracts[fc.PkgPath+"."+fc.Key] = fc
 			}
+		}
+	}
+	// call-log ghost variables
+	for _, fc := range ctx.all {
+		if !fc.Logged {
+			continue
+		}
+		var sig *types.Signature
+		name := ""
+		if fn := ctx.funcFor(fc); fn != nil {
+			sig = fn.Signature
+			name = fn.Name()
+		} else if fc.Kind == "extern" {
+			// interface method: pkg.Iface.Method
+			if i := strings.LastIndex(fc.Key, "."); i > 0 {
+				pkgPath, tn := splitExternKey(fc.Key[:i])
+				if tp := ctx.typesPkg(pkgPath); tp != nil {
+					if obj := tp.Scope().Lookup(tn); obj != nil {
+						if it, ok := obj.Type().Underlying().(*types.Interface); ok {
+							for k := 0; k < it.NumMethods(); k++ {
+								if it.Method(k).Name() == fc.Key[i+1:] {
+									sig = it.Method(k).Type().(*types.Signature)
+									name = it.Method(k).Name()
+								}
+							}
+						}
+					}
+				}
+			}
+		}
+		if sig == nil {
+			fc.Errors = append(fc.Errors, "logged: function not found")
+			continue
+		}
+		if fc.LogName == "" {
+			fc.LogName = name
+		}
+		ctx.ghostVars["calls_"+fc.LogName] = &GhostVar{Name: "calls_" + fc.LogName, Type: "mathint", PkgPath: fc.PkgPath, Math: true}
+		for i := 0; i < sig.Params().Len(); i++ {
+			p := sig.Params().At(i)
+			if p.Name() == "" || p.Name() == "_" {
+				continue
+			}
+			n := "arg_" + fc.LogName + "_" + p.Name()
+			ctx.ghostVars[n] = &GhostVar{Name: n, PkgPath: fc.PkgPath, Ty: p.Type()}
 		}
 	}
 	return ctx, nil
